@@ -7,11 +7,11 @@ WT=/tmp/wt-tests-$ID
 git -C /repo worktree remove --force $WT 2>/dev/null
 git -C /repo worktree add -q $WT HEAD || exit 3
 cd $WT
-run() { PYTHONPATH=$WT NUMBA_CACHE_DIR=$WT/.nbcache /venv/bin/python -m pytest -q -p no:cacheprovider --timeout=900 -n 4 "$@" 2>&1 | grep -E "^(FAILED|ERROR)|passed|failed" | sed 's/ - .*//' | sort; }
+run() { PYTHONPATH=$WT NUMBA_CACHE_DIR=$WT/.nbcache /venv/bin/python -m pytest -q -p no:cacheprovider --timeout=900 -n 4 "$@" 2>&1 | grep -E "^(FAILED|ERROR)|^[0-9]+ (passed|failed|skipped)" | sed 's/ - .*//' | sort; }
 run "$@" > /tmp/seed-tests-$ID.base.txt
 git apply $D/patch.diff || { echo PATCH-DOES-NOT-APPLY; exit 3; }
 run "$@" > /tmp/seed-tests-$ID.patched.txt
-echo "base:    $(grep -E 'passed|failed' /tmp/seed-tests-$ID.base.txt | tail -1)"
-echo "patched: $(grep -E 'passed|failed' /tmp/seed-tests-$ID.patched.txt | tail -1)"
+echo "base:    $(grep -E '^[0-9]+ (passed|failed|skipped)' /tmp/seed-tests-$ID.base.txt | tail -1)"
+echo "patched: $(grep -E '^[0-9]+ (passed|failed|skipped)' /tmp/seed-tests-$ID.patched.txt | tail -1)"
 if diff <(grep -E "^(FAILED|ERROR)" /tmp/seed-tests-$ID.base.txt) <(grep -E "^(FAILED|ERROR)" /tmp/seed-tests-$ID.patched.txt) >/dev/null; then echo "TESTS-IDENTICAL $ID"; else echo "TESTS-DIFFER $ID"; diff <(grep -E "^(FAILED|ERROR)" /tmp/seed-tests-$ID.base.txt) <(grep -E "^(FAILED|ERROR)" /tmp/seed-tests-$ID.patched.txt) | head -10; fi
 cd /; git -C /repo worktree remove --force $WT
